@@ -315,6 +315,15 @@ def supplied(case, form=None):
 
 def extract_kwargs(case):
     o = dict(case['opts'])
+    if o.get('variableLengthFrags') and any(
+            x is not None and len(coarse_sig(x)) > 24
+            for x in case['examples']):
+        # rows of dozens of fragments beside short strings make rexpy write
+        # dozens of optional fragments in a row; Python's own matcher then
+        # needs exponential time to find that such an expression does NOT
+        # match a long string (the oracle, not rexpy, would hang): variable
+        # length fragments are not combined with such rows
+        o['variableLengthFrags'] = False
     kw = {
         'tag': o.get('tag', False),
         'extra_letters': o.get('extra_letters'),
